@@ -88,6 +88,8 @@ def run(ctx):
                       'a <= maxjointsize/2 and a <= min(len0, len1)/20', 3)
     ctx.rule('R20.2', 'smoothed_path bookkeeping for every pattern of (smooth | kink) joints on open and closed 3-segment paths; single segment returned as is', 3)
     ctx.rule('R20.3', 'curve-curve branch: the returned pieces are chained end to end from seg0_trimmed to seg1_trimmed', 1)
+    ctx.rule('R20.4', 'the tangent comparison of smoothed_path/kinks uses isclose(a,b) == (|a-b| < atol + rtol|b|)', 1)
+    check_isclose_definition(ctx, 'R20.4')
     fj = mdl.func('smoothing.smoothed_joint')
     poly.POSITIVE.update({'L0', 'L1', 'mj'})
     L0, L1 = Rat.sym('L0'), Rat.sym('L1')
